@@ -49,6 +49,19 @@ CLAIM = {
 }
 GEN = [("StageWiring", lambda: tsw.generate()[0])]
 
+_SEEN = set()
+
+
+def report(ctx, sig, what, replay):
+    """ctx.violation once per signature (every call writes a replay file)"""
+    import json
+    key = json.dumps(sig, sort_keys=True, default=str)
+    if key in _SEEN:
+        return
+    _SEEN.add(key)
+    ctx.violation(sig, what, replay)
+
+
 HEADER = ("From Coq Require Import String QArith List ZArith.\nFrom PP Require Import C05.Model.\n"
           "Import ListNotations.\n")
 
@@ -69,6 +82,14 @@ def fallback_wiring():
 
 
 # ================================================================================================ driver
+def driver_signature(c, clause):
+    sig = {"clause": clause, "level": "driver", "fn": "newton_raphson"}
+    if clause == "nan_never_counts":
+        sig["shape"] = "all result vectors of equal length (2-D object array)" \
+            if c["shape"] in ("rect", "rect1") or len(set(c["lengths"])) <= 1 else "ragged"
+    return sig
+
+
 def driver_correspondence(ctx, n_cases):
     from harness import c05_driver as D
     rng = ctx.rng
@@ -86,13 +107,10 @@ def driver_correspondence(ctx, n_cases):
             ctx.count("driver:history_with_nan")
         # the property's own words on the real run (monitor)
         for clause, text in D.driver_oracle(c, r)[:1]:
-            sig = {"clause": clause, "level": "driver", "fn": "newton_raphson"}
-            if clause == "nan_never_counts":
-                sig["shape"] = "all result vectors of equal length (2-D object array)" \
-                    if c["shape"] in ("rect", "rect1") or len(set(c["lengths"])) <= 1 else "ragged"
-            ctx.violation(sig, "scripted solve function under the real newton_raphson: " + text,
+            sig = driver_signature(c, clause)
+            report(ctx, sig, "scripted solve function under the real newton_raphson: " + text,
                           {"kind": "driver", "case": c, "script": r["script"], "observed":
-                              {k: r[k] for k in ("converged", "niter", "alpha", "hist", "codes", "exception")}})
+                              {k: r[k] for k in ("converged", "niter", "alpha", "hist", "codes", "alphas", "exception")}})
     size = 250
     chunks = [cases[s:s + size] for s in range(0, len(cases), size)]
 
@@ -114,11 +132,11 @@ def driver_correspondence(ctx, n_cases):
             c, r = chunks[i][first]
             bad = D.driver_oracle(c, r)
             rep = {"kind": "driver", "case": c, "script": r["script"],
-                   "observed": {k: r[k] for k in ("converged", "niter", "alpha", "hist", "codes", "exception")}}
+                   "observed": {k: r[k] for k in ("converged", "niter", "alpha", "hist", "codes", "alphas", "exception")}}
             if bad:
-                ctx.violation({"clause": bad[0][0], "level": "driver", "fn": "newton_raphson"},
+                report(ctx, driver_signature(c, bad[0][0]),
                               "scripted solve function under the real newton_raphson: " + bad[0][1], rep)
-            else:
+            elif len([b for b in ctx.brokens if b[1] == "C05.newton_v vs newton_raphson"]) < 3:
                 ctx.broken("correspondence", "C05.newton_v vs newton_raphson",
                            "model and implementation differ on a scripted run (method %s, max_iter %d, observed converged=%s "
                            "niter=%s alpha=%s) but the run itself satisfies the property statement; replay: %s"
@@ -147,10 +165,10 @@ def run_stage_probes(ctx, wiring):
                            len([w for w in wiring if w["name"] == p["stage"]][0]["pairs"])))
                 if p["col"] == "TINIT" and p["what"] == "jump10":
                     what = "node temperature jumping by 10 K per iteration reported converged: " + what
-                ctx.violation({"stage": p["stage"], "clause": "stage_wiring", "pair": p["pair"], "col": p["col"],
+                report(ctx, {"stage": p["stage"], "clause": "stage_wiring", "pair": p["pair"], "col": p["col"],
                                "probe": p["what"]}, what, {"kind": "stage_probe", "probe": p})
             elif p["outcome"] == "raise":
-                ctx.violation({"stage": p["stage"], "clause": "stage_wiring_too_strict", "pair": p["pair"], "col": p["col"],
+                report(ctx, {"stage": p["stage"], "clause": "stage_wiring_too_strict", "pair": p["pair"], "col": p["col"],
                                "probe": p["what"]},
                               "scripted iteration under the real %s(): unknown #%d (%s) changes by half its own tolerance "
                               "and nothing else changes, yet the stage raises PipeflowNotConverged" % (p["stage"], p["pair"], p["col"]),
@@ -370,16 +388,16 @@ def run_scenarios(ctx, n_scen):
                 monitor_success(ctx, net, mode, runs, replay)
             elif cls == "PipeflowNotConverged":
                 if conv or not allnan:
-                    ctx.violation({"clause": "failed_run_leaves_no_results", "exception": cls, "raised_in": where},
+                    report(ctx, {"clause": "failed_run_leaves_no_results", "exception": cls, "raised_in": where},
                                   "after PipeflowNotConverged (%s) net.converged=%s and result tables %s"
                                   % (where, conv, "all NaN" if allnan else "hold numbers"), replay)
                 for r in runs:
                     if len(r["iters"]) > r["max_iter"]:
-                        ctx.violation({"clause": "loop_terminates", "stage": r["stage"]},
+                        report(ctx, {"clause": "loop_terminates", "stage": r["stage"]},
                                       "%d iterations with a budget of %d" % (len(r["iters"]), r["max_iter"]), replay)
             else:
                 if conv or not allnan:
-                    ctx.violation({"clause": "failed_run_leaves_no_results", "exception": cls, "raised_in": where},
+                    report(ctx, {"clause": "failed_run_leaves_no_results", "exception": cls, "raised_in": where},
                                   "pipeflow raised %s (%s) and afterwards net.converged=%s and result tables %s"
                                   % (cls, where, conv, "are all NaN" if allnan else "hold numbers"), replay)
             # ---- model call ----
@@ -453,31 +471,31 @@ def monitor_success(ctx, net, mode, runs, replay):
     import numpy as np
     from pandapipes.idx_node import ELEMENT_IDX
     if not net.converged:
-        ctx.violation({"clause": "returned_implies_converged_flag"}, "pipeflow returned normally with net.converged = False", replay)
+        report(ctx, {"clause": "returned_implies_converged_flag"}, "pipeflow returned normally with net.converged = False", replay)
     if not runs:
-        ctx.violation({"clause": "returned_implies_stage_ran"}, "pipeflow returned normally without running a Newton loop", replay)
+        report(ctx, {"clause": "returned_implies_stage_ran"}, "pipeflow returned normally without running a Newton loop", replay)
     for r in runs:
         if not r["iters"]:
-            ctx.violation({"clause": "converged_implies_last_within_tol", "stage": r["stage"], "why": "no iteration"},
+            report(ctx, {"clause": "converged_implies_last_within_tol", "stage": r["stage"], "why": "no iteration"},
                           "stage %s reported converged without a single iteration (net.converged was %s when the loop "
                           "started)" % (r["stage"], r["conv0"]), replay)
             continue
         if len(r["iters"]) > r["max_iter"]:
-            ctx.violation({"clause": "loop_terminates", "stage": r["stage"]}, "%d iterations with a budget of %d"
+            report(ctx, {"clause": "loop_terminates", "stage": r["stage"]}, "%d iterations with a budget of %d"
                           % (len(r["iters"]), r["max_iter"]), replay)
         errs, res = r["iters"][-1]
         if len(r["tols"]) < len(errs):
-            ctx.violation({"clause": "stage_wiring", "stage": r["stage"], "why": "fewer tolerances than variables"},
+            report(ctx, {"clause": "stage_wiring", "stage": r["stage"], "why": "fewer tolerances than variables"},
                           "stage %s: %d variables, %d tolerances" % (r["stage"], len(errs), len(r["tols"])), replay)
         for v, e, t in zip(r["vars"], errs, r["tols"]):
             if not e <= t:
-                ctx.violation({"clause": "converged_implies_last_within_tol", "stage": r["stage"], "var": v},
+                report(ctx, {"clause": "converged_implies_last_within_tol", "stage": r["stage"], "var": v},
                               "returned normally although the last change of %s in stage %s is %r > %r" % (v, r["stage"], e, t), replay)
         if not res <= r["tol_res"]:
-            ctx.violation({"clause": "converged_implies_last_within_tol", "stage": r["stage"], "var": "residual"},
+            report(ctx, {"clause": "converged_implies_last_within_tol", "stage": r["stage"], "var": "residual"},
                           "returned normally although the last residual norm of stage %s is %r > %r" % (r["stage"], res, r["tol_res"]), replay)
         if r["method"] == "automatic" and r.get("alpha") != 1.0:
-            ctx.violation({"clause": "converged_implies_last_within_tol", "stage": r["stage"], "var": "alpha"},
+            report(ctx, {"clause": "converged_implies_last_within_tol", "stage": r["stage"], "var": "alpha"},
                           "returned normally with damping factor %r" % r.get("alpha"), replay)
     # finite results on the supplied in-service part (the solver's own active lookup)
     try:
@@ -493,7 +511,7 @@ def monitor_success(ctx, net, mode, runs, replay):
         for c in cols:
             badj = rj.index[~np.isfinite(rj[c].values.astype(float))].tolist()
             if badj:
-                ctx.violation({"clause": "supplied_results_finite", "table": "res_junction", "column": c},
+                report(ctx, {"clause": "supplied_results_finite", "table": "res_junction", "column": c},
                               "returned normally but res_junction.%s is not finite at supplied in-service junctions %r" % (c, badj[:5]), replay)
         supset = set(int(x) for x in sup)
         if len(net.pipe) and "pipe" in lk["branch_from_to"]:
@@ -507,7 +525,7 @@ def monitor_success(ctx, net, mode, runs, replay):
                 if c in rp:
                     badp = rp.index[~np.isfinite(rp[c].values.astype(float))].tolist()
                     if badp:
-                        ctx.violation({"clause": "supplied_results_finite", "table": "res_pipe", "column": c},
+                        report(ctx, {"clause": "supplied_results_finite", "table": "res_pipe", "column": c},
                                       "returned normally but res_pipe.%s is not finite at supplied in-service pipes %r" % (c, badp[:5]), replay)
         for tbl in ("ext_grid", "circ_pump_pressure", "circ_pump_mass"):
             if hyd and tbl in net and len(net[tbl]) and "res_" + tbl in net:
@@ -516,7 +534,7 @@ def monitor_success(ctx, net, mode, runs, replay):
                 ins = [i for i in ins if int(net[tbl].at[i, jcol]) in supset]
                 vals = net["res_" + tbl].loc[ins, "mdot_kg_per_s" if tbl == "ext_grid" else "mdot_from_kg_per_s"].values.astype(float)
                 if not np.all(np.isfinite(vals)):
-                    ctx.violation({"clause": "supplied_results_finite", "table": "res_" + tbl},
+                    report(ctx, {"clause": "supplied_results_finite", "table": "res_" + tbl},
                                   "returned normally but res_%s mass flow is not finite for in-service rows" % tbl, replay)
     except KeyError as e:
         ctx.note("finite-results monitor skipped a net: %r" % (e,))
@@ -551,7 +569,7 @@ def run(ctx):
     t1 = time.time()
     run_stage_probes(ctx, wiring)
     t2 = time.time()
-    run_scenarios(ctx, 90 if ctx.quick else 900)
+    run_scenarios(ctx, 70 if ctx.quick else 900)
     ctx.extra["timing_s"] = {"driver": round(t1 - t0, 1), "stage_probes": round(t2 - t1, 1),
                              "pipeflow_sequences": round(time.time() - t2, 1)}
     print("timing: %r" % ctx.extra["timing_s"])
@@ -576,7 +594,7 @@ def replay(ctx, path):
         bad = D.driver_oracle(c, r)
         print("replayed scripted run: converged=%s niter=%s alpha=%s" % (r["converged"], r["niter"], r["alpha"]))
         for clause, text in bad[:1]:
-            ctx.violation({"clause": clause, "level": "driver", "fn": "newton_raphson"}, text, rp)
+            report(ctx, driver_signature(c, clause), text, rp)
     elif kind == "stage_probe":
         d = tsw.generate()[1] if True else None
         res = [p for p in D.stage_probes(d["stages"]) if p["stage"] == rp["probe"]["stage"] and p["pair"] == rp["probe"]["pair"]
@@ -584,7 +602,7 @@ def replay(ctx, path):
         for p in res:
             print("replayed stage probe: %r" % p)
             if p["outcome"] != p["expect"]:
-                ctx.violation({"stage": p["stage"], "clause": "stage_wiring", "pair": p["pair"], "col": p["col"]},
+                report(ctx, {"stage": p["stage"], "clause": "stage_wiring", "pair": p["pair"], "col": p["col"]},
                               "stage probe outcome %s, expected %s" % (p["outcome"], p["expect"]), rp)
     elif kind == "pipeflow_sequence":
         from harness import gen, drive
@@ -598,7 +616,7 @@ def replay(ctx, path):
             if cls == "ok":
                 monitor_success(ctx, net, mode, runs, rp)
             elif net.converged or not allnan:
-                ctx.violation({"clause": "failed_run_leaves_no_results", "exception": cls},
+                report(ctx, {"clause": "failed_run_leaves_no_results", "exception": cls},
                               "after %s: converged=%s, tables all NaN=%s" % (cls, net.converged, allnan), rp)
     else:
         ctx.note("replay file of kind %r: nothing to re-run (obligation-level finding)" % kind)
